@@ -6,6 +6,7 @@
     (prefix freeness), AllocOK (storage reserved ahead of the data <= cap s * bytes consumed). *)
 From Coq Require Import NArith List Bool.
 From CB Require Import Common.Codec Common.CodecProofs Chain.ChainSchemas Chain.ChainSchemasProofs Gen.ChainSchemas Chain.GenTie Chain.ChainSchemasFull.
+From CB Require Import Gen.ChainSchemasParam Chain.GenericTie Chain.ChainSchemasAll Gen.ManualImpls Chain.ManualTie.
 Import ListNotations.
 Local Open Scope N_scope.
 
@@ -265,6 +266,103 @@ Print Assumptions generated_table_all_laws.
 Theorem full_sum_types_all_laws : forall valid id s, In (id, s) full_schema_table -> Laws valid s.
 Proof. exact full_laws. Qed.
 Print Assumptions full_sum_types_all_laws.
+
+(** ** Bare generic wrappers (SigmaProof<R>, AndResponse<R1, R2>, ReplicateResponse<R>, ReplicatePoints<P>, Secret<T>,
+    ConcordiumZKProof<T>, RevealAttributeStatement<TagType>): regenerated from the Rust declarations as schema FUNCTORS
+    (Gen/ChainSchemasParam.v).  For EVERY well-formed argument schema the wrapper has all the laws; a vector wrapper needs
+    its element to occupy at least one byte. *)
+Theorem sigma_proof_all_laws : forall valid R, schema_wf R = true -> Laws valid (gp_SigmaProof R).
+Proof. exact sigma_proof_laws. Qed.
+Print Assumptions sigma_proof_all_laws.
+
+Theorem and_response_all_laws : forall valid R1 R2, schema_wf R1 = true -> schema_wf R2 = true -> Laws valid (gp_AndResponse R1 R2).
+Proof. exact and_response_laws. Qed.
+Print Assumptions and_response_all_laws.
+
+Theorem replicate_response_all_laws : forall valid R,
+  schema_wf R = true -> (1 <=? min_size R) = true -> Laws valid (gp_ReplicateResponse R).
+Proof. exact replicate_response_laws. Qed.
+Print Assumptions replicate_response_all_laws.
+
+Theorem replicate_points_all_laws : forall valid P,
+  schema_wf P = true -> (1 <=? min_size P) = true -> Laws valid (gp_ReplicatePoints P).
+Proof. exact replicate_points_laws. Qed.
+Print Assumptions replicate_points_all_laws.
+
+Theorem secret_wrapper_all_laws : forall valid T, schema_wf T = true -> Laws valid (gp_Secret T).
+Proof. exact secret_laws. Qed.
+Print Assumptions secret_wrapper_all_laws.
+
+Theorem zk_proof_wrapper_all_laws : forall valid T, schema_wf T = true -> Laws valid (gp_ConcordiumZKProof T).
+Proof. exact zk_proof_laws. Qed.
+Print Assumptions zk_proof_wrapper_all_laws.
+
+Theorem reveal_attribute_statement_all_laws : forall valid T, schema_wf T = true -> Laws valid (gp_RevealAttributeStatement T).
+Proof. exact reveal_attribute_statement_laws. Qed.
+Print Assumptions reveal_attribute_statement_all_laws.
+
+(** The min-size hypothesis of the vector wrappers is needed (a vector of empty elements is outside the class). *)
+Theorem replicate_response_of_unit_not_wf : schema_wf (gp_ReplicateResponse SUnit) = false.
+Proof. exact replicate_response_needs_min_size. Qed.
+Print Assumptions replicate_response_of_unit_not_wf.
+
+(** Non-vacuity: the instantiations translated for the chain are instances whose arguments satisfy the hypotheses. *)
+Example sigma_proof_wrapper_nonvacuous :
+  g_SigmaProof_DlogResponse_ArCurve = gp_SigmaProof g_Response__sigma_protocols_dlog_ArCurve
+  /\ schema_wf g_Response__sigma_protocols_dlog_ArCurve = true.
+Proof. exact sigma_proof_instance. Qed.
+Print Assumptions sigma_proof_wrapper_nonvacuous.
+
+Example replicate_response_wrapper_nonvacuous :
+  g_ReplicateResponse_com_enc_eq_Response_ArCurve = gp_ReplicateResponse g_Response__sigma_protocols_com_enc_eq_ArCurve
+  /\ schema_wf g_Response__sigma_protocols_com_enc_eq_ArCurve = true
+  /\ (1 <=? min_size g_Response__sigma_protocols_com_enc_eq_ArCurve) = true.
+Proof. exact replicate_response_instance. Qed.
+Print Assumptions replicate_response_wrapper_nonvacuous.
+
+(** ** Payload with ALL its variants (Chain/ChainSchemasAll.v): InitContract / Update (contract and receive names with their
+    validity rules, parameters) added to the sum of [s_payload_full]; AccountTransaction<Payload> over it. *)
+Theorem payload_all_variants_laws : forall valid, Laws valid s_payload_all.
+Proof. exact (fun valid => schema_codec_laws valid s_payload_all payload_all_wf). Qed.
+Print Assumptions payload_all_variants_laws.
+
+Theorem all_variants_table_laws : forall valid id s, In (id, s) all_schema_table -> Laws valid s.
+Proof. exact all_laws. Qed.
+Print Assumptions all_variants_table_laws.
+
+(** The tag table of the term is exactly the list of transaction types (22 variants, each tag once). *)
+Theorem payload_all_variants_covered :
+  (forall t, In t (map fst payload_alts_all) <-> In t payload_type_tags)
+  /\ NoDup (map fst payload_alts_all) /\ length payload_alts_all = 22%nat.
+Proof. exact payload_all_tags. Qed.
+Print Assumptions payload_all_variants_covered.
+
+Example init_contract_nonvacuous : forall valid,
+  let v := VTag 1 (VList [VNum 5; VBytes (repeat 9 32); VBytes [105; 110; 105; 116; 95; 97]; VBytes [7]]) in
+  wt valid s_payload_all v = true
+  /\ dec valid s_payload_all (enc s_payload_all v ++ [1]) = Some (v, [1])
+  /\ dec valid s_payload_all (1 :: repeat 0 8 ++ repeat 9 32 ++ [0; 5; 105; 110; 105; 116; 46; 0; 0]) = None.
+Proof. exact init_contract_example. Qed.
+Print Assumptions init_contract_nonvacuous.
+
+(** ** Hand-written straight-line impls: the terms regenerated from the `impl Serial` / `impl Deserial` bodies on every run
+    (translators/gen_manual_impls.py; encoder and decoder field orders checked to agree) equal the hand-written terms. *)
+Theorem manual_impls_match :
+  m_InitContractPayload = s_init_contract_payload /\ m_UpdateContractPayload = s_update_contract_payload
+  /\ m_BakerKeysPayload = s_baker_keys_payload_g2 /\ m_AddBakerPayload = s_add_baker_payload_g2
+  /\ m_PreIdentityProof = t_PreIdentityProof.
+Proof. exact manual_equal. Qed.
+Print Assumptions manual_impls_match.
+
+Theorem manual_impls_baker_layout :
+  layout_of s_baker_keys_payload_g2 = layout_of s_baker_keys_payload
+  /\ layout_of s_add_baker_payload_g2 = layout_of s_add_baker_payload.
+Proof. exact baker_keys_layout. Qed.
+Print Assumptions manual_impls_baker_layout.
+
+Theorem manual_impls_all_laws : forall valid s, In s manual_impl_all -> Laws valid s.
+Proof. exact manual_laws. Qed.
+Print Assumptions manual_impls_all_laws.
 
 (** ** Finding F4 (ConfigureBaker bitmap).  After the fix the decoder is the schema with mask
     0x01ff and is canonical: *)
